@@ -172,6 +172,62 @@ template <int S, int D> struct SplineWorld {
   }
 };
 
+// ---- long silent runs (seeded change C11-m12: 8-bit revision stamps that wrap after 255 updates without an evaluation) ----
+// The BFS above bounds the history length; a counter that wraps is out of its reach. Here ONE parameter is swept instead: the number n of
+// consecutive updates that no evaluation separates, every n up to the bound, after the caches were filled once.
+//  (copy)  one object, caches filled, then n = 1..nmax updates; after each a COPY is evaluated (the object itself stays un-evaluated)
+//  (exact) for every n <= nexact separately: fresh object, caches filled, n updates, then the object itself is evaluated
+template <class PPW> void silent_pp(Ctx &c, const char *tag, long nmax, int nexact) {
+  typedef typename PPW::PP PP; typedef typename PPW::Vec Vec;
+  const auto &ds = PPW::datasets();
+  for (int variant = 0; variant < 2; ++variant) {
+    const std::vector<int> seq = variant == 0 ? std::vector<int>{0, 1} : std::vector<int>{0, 2, 3, 1};   // same shape only / shapes change as well
+    std::vector<std::vector<Vec>> want(ds.size());
+    auto probe = [&](const PP &o) { std::vector<Vec> v; for (int k = 0; k <= 2; ++k) { v.push_back(o.evaluate(PPW::TPROBE, k)); v.push_back(o.evaluate(o.getStartTime() + 0.3 * o.getDuration(), k)); } return v; };
+    for (int d : seq) { PP f(ds[d].b, ds[d].C, ds[d].nc); want[d] = probe(f); }
+    auto same = [&](const std::vector<Vec> &a, const std::vector<Vec> &b) { for (size_t i = 0; i < a.size(); ++i) if (!bits_equal(a[i].data(), b[i].data(), (size_t)a[i].size())) return false; return true; };
+    std::string unit = fmt("%s: silent updates variant %d (copy observed) n=1..%ld", tag, variant, nmax);
+    if (c.begin(unit)) { ++c.st.evaluations;
+      PP X(ds[seq[0]].b, ds[seq[0]].C, ds[seq[0]].nc); (void)probe(X); (void)X.derivative(1);
+      for (long n = 1; n <= nmax; ++n) { int d = seq[n % seq.size()]; X.update(ds[d].b, ds[d].C, ds[d].nc); PP cp(X); ++c.st.comparisons;
+        if (!same(probe(cp), want[d])) { c.st.violate(unit, fmt("%s: after one evaluation and %ld updates with no evaluation in between, a copy of the object does not evaluate to its latest data (stale cache served)", tag, n), {{"what", "silent-updates"}}); break; }
+        if ((n & 1023) == 0 && c.out_of_time()) break; }
+      c.st.cls("silent-update runs (copy observed)"); if (!c.st.seen(unit)) ++c.st.nontrivial; }
+    unit = fmt("%s: silent updates variant %d (object observed) every n<=%d", tag, variant, nexact);
+    if (c.begin(unit)) { ++c.st.evaluations;
+      for (int n = 1; n <= nexact; ++n) { PP X(ds[seq[0]].b, ds[seq[0]].C, ds[seq[0]].nc); (void)probe(X); int d = seq[0];
+        for (int i = 1; i <= n; ++i) { d = seq[i % seq.size()]; X.update(ds[d].b, ds[d].C, ds[d].nc); } ++c.st.comparisons;
+        if (!same(probe(X), want[d])) { c.st.violate(unit, fmt("%s: after one evaluation and exactly %d updates with no evaluation in between, evaluate() does not return the latest data (stale cache served)", tag, n), {{"what", "silent-updates"}}); break; } }
+      c.st.cls("silent-update runs (object observed)"); if (!c.st.seen(unit)) ++c.st.nontrivial; }
+  }
+}
+template <class SW> void silent_spline(Ctx &c, const char *tag, long nmax, int nexact) {
+  typedef typename SW::Sp Sp; typedef typename SW::PP PP; typedef typename PP::VectorType Vec;
+  const auto &ps = SW::problems();
+  for (int variant = 0; variant < 2; ++variant) {
+    const std::vector<int> seq = variant == 0 ? std::vector<int>{0, 1} : std::vector<int>{0, 2, 3, 4};   // same N only / N, start time change as well
+    std::vector<std::vector<Vec>> want(ps.size());
+    auto probe = [&](const PP &o) { std::vector<Vec> v; for (int k = 0; k <= 2; ++k) { v.push_back(o.evaluate(0.3125, k)); v.push_back(o.evaluate(o.getStartTime() + 0.3 * o.getDuration(), k)); } return v; };
+    for (int d : seq) { Sp f(ps[d].T, ps[d].P, ps[d].t0, ps[d].bc); want[d] = probe(f.getTrajectory()); }
+    auto same = [&](const std::vector<Vec> &a, const std::vector<Vec> &b) { for (size_t i = 0; i < a.size(); ++i) if (!bits_equal(a[i].data(), b[i].data(), (size_t)a[i].size())) return false; return true; };
+    auto upd = [&](Sp &s, long n, int d) { if (n & 2) s.update(ps[d].timepoints(), ps[d].P, ps[d].bc); else s.update(ps[d].T, ps[d].P, ps[d].t0, ps[d].bc); (void)s.getEnergy(); };   // an optimizer loop: energy queried, trajectory never evaluated
+    std::string unit = fmt("%s: silent updates variant %d (copy observed) n=1..%ld", tag, variant, nmax);
+    if (c.begin(unit)) { ++c.st.evaluations;
+      Sp X(ps[seq[0]].T, ps[seq[0]].P, ps[seq[0]].t0, ps[seq[0]].bc); (void)probe(X.getTrajectory());
+      for (long n = 1; n <= nmax; ++n) { int d = seq[n % seq.size()]; upd(X, n, d); ++c.st.comparisons; bool ok;
+        if (n & 1) { Sp cp(X); ok = same(probe(cp.getTrajectory()), want[d]); } else { PP cp = X.getTrajectoryCopy(); ok = same(probe(cp), want[d]); }
+        if (!ok) { c.st.violate(unit, fmt("%s: after one evaluation and %ld updates with no evaluation in between, a copy (%s) does not evaluate to the latest fit (stale cache served)", tag, n, (n & 1) ? "spline copy" : "getTrajectoryCopy()"), {{"what", "silent-updates"}}); break; }
+        if ((n & 1023) == 0 && c.out_of_time()) break; }
+      c.st.cls("silent-update runs (copy observed)"); if (!c.st.seen(unit)) ++c.st.nontrivial; }
+    unit = fmt("%s: silent updates variant %d (object observed) every n<=%d", tag, variant, nexact);
+    if (c.begin(unit)) { ++c.st.evaluations;
+      for (int n = 1; n <= nexact; ++n) { Sp X(ps[seq[0]].T, ps[seq[0]].P, ps[seq[0]].t0, ps[seq[0]].bc); (void)probe(X.getTrajectory()); int d = seq[0];
+        for (int i = 1; i <= n; ++i) { d = seq[i % seq.size()]; upd(X, i, d); } ++c.st.comparisons;
+        if (!same(probe(X.getTrajectory()), want[d])) { c.st.violate(unit, fmt("%s: after one evaluation and exactly %d updates with no evaluation in between, the trajectory does not evaluate to the latest fit (stale cache served)", tag, n), {{"what", "silent-updates"}}); break; } }
+      c.st.cls("silent-update runs (object observed)"); if (!c.st.seen(unit)) ++c.st.nontrivial; }
+  }
+}
+
 int main(int argc, char **argv) {
   Args a = parse_args(argc, argv);
   return supervise(a, [&](Ctx &c) {
@@ -191,5 +247,11 @@ int main(int argc, char **argv) {
 #endif
     BfsResult r = bfs(c, tag, [] { return std::unique_ptr<W>(new W()); }, depth, c.args.thorough() ? 4 : 3);
     note_bfs(c, tag, r, depth);
+    const long nmax = 70000; const int nexact = c.args.thorough() ? 1100 : 600;   // beyond 2^16 (+ margin) / beyond 2 x 2^8 and 2^10
+#if VWORLD < 3
+    silent_pp<W>(c, tag, nmax, nexact);
+#else
+    silent_spline<W>(c, tag, nmax, nexact);
+#endif
   });
 }
